@@ -13,8 +13,11 @@ class Ctx:
         self.thorough = tier == 'thorough'
         self.searching = False
 
+        self.boost = 4 if lib.source_changed() else 1
+
     def scale(self, quick, thorough=None):
-        return (thorough if thorough is not None else quick * 10) if self.thorough else quick
+        # the source differs from the tree the model was validated against: search harder
+        return (thorough if thorough is not None else quick * 10) if self.thorough else quick * self.boost
 
 
 class Report:
@@ -108,7 +111,80 @@ def matches_known(k, f):
     return bool(m) and m in json.dumps(f)
 
 
+def _hex_field(parts):
+    for i in range(len(parts) - 1, 0, -1):
+        f = parts[i]
+        if f and len(f) % 2 == 0 and all(c in '0123456789abcdef' for c in f):
+            return i
+    return None
+
+
 def shrink(ctx, spec, failure):
+    """delta-debugging on the octet argument of a single-case failure: keep removing chunks
+    while the same kind of failure persists (non-return of the implementation, or a result
+    that differs from the reference).  Multi-stage predicates are reported unshrunk."""
+    case = failure.get('case')
+    exe = failure.get('executor')
+    if not isinstance(case, str) or exe not in IMPLS or case.endswith('...'):
+        return failure
+    parts = case.split('\t')
+    hi = _hex_field(parts)
+    if hi is None:
+        return failure
+    res0 = str(failure.get('result', failure.get('implementation', '')))
+    if cls(res0) in ('PANIC', 'ABORT', 'HANG'):
+        kind = 'nonreturn'
+    elif 'specification' in failure:
+        kind = 'differs'
+    else:
+        return failure
+
+    def failing(cands):
+        lines = ['\t'.join(parts[:hi] + [c.hex()] + parts[hi + 1:]) for c in cands]
+        r = ctx.runner.run(lines, ('model', exe))
+        out = []
+        for i in range(len(cands)):
+            a, m = r[exe][i], r['model'][i]
+            if cls(m) == 'BADCASE' or cls(a) == 'BADCASE':
+                out.append(False)
+            elif kind == 'nonreturn':
+                out.append(cls(a) in ('PANIC', 'ABORT', 'HANG') and returns(m))
+            else:
+                out.append(a != m)
+        return out, r
+    data = bytes.fromhex(parts[hi])
+    if len(data) > 4096:
+        return failure
+    n, rounds = 2, 0
+    while len(data) >= 2 and rounds < 40:
+        rounds += 1
+        size = max(1, len(data) // n)
+        cands = [data[:i] + data[i + size:] for i in range(0, len(data), size)]
+        ok, _ = failing(cands)
+        hit = next((c for c, o in zip(cands, ok) if o), None)
+        if hit is not None:
+            data = hit
+            n = max(n - 1, 2)
+        elif size == 1:
+            break
+        else:
+            n = min(len(data), n * 2)
+    # then try zeroing octets
+    cands = [data[:i] + b'\x00' + data[i + 1:] for i in range(len(data)) if data[i] != 0]
+    if cands and len(cands) <= 512:
+        for _ in range(3):
+            ok, _ = failing(cands)
+            hit = next((c for c, o in zip(cands, ok) if o), None)
+            if hit is None:
+                break
+            data = hit
+            cands = [data[:i] + b'\x00' + data[i + 1:] for i in range(len(data)) if data[i] != 0]
+            if not cands:
+                break
+    ok, r = failing([data])
+    if ok[0]:
+        failure = dict(failure, minimized_case='\t'.join(parts[:hi] + [data.hex()] + parts[hi + 1:]),
+                       minimized_implementation=r[exe][0][:400], minimized_model=r['model'][0][:400])
     return failure
 
 
